@@ -180,3 +180,34 @@ Theorem C01_ext_oer_preamble9_example :
   ext_oer_dec wit_seq_p9 [128; 0; 255; 2; 7; 128; 1; 255] = Some (wit_val_p9, []).
 Proof. exact ext_oer_preamble9_example. Qed.
 Print Assumptions C01_ext_oer_preamble9_example.
+
+(* ---------------- SET and DEFAULT components (Rt/SetDef.v, notes/design/SetDef.md) ---------------- *)
+From A1 Require Import Rt.Uper Rt.UperProofs Rt.Oer Rt.OerProofs Rt.SetDef Rt.SetDefProofs.
+
+(* DER written (members of a SET in the order SET_encode_der chooses, a value equal to its DEFAULT
+   omitted), BER read, arbitrary data may follow: the value comes back with every stored default ABSENT *)
+Theorem C01_setdef_der_roundtrip_in_stream : forall t v bs rest,
+  cwf_d t = true -> is_marker t = false -> cwt_d t v = true -> cder false t v = Some bs -> zlen bs <= rssize_max ->
+  cber_dec t (bs ++ rest) = Some (strip_dflt t v, rest).
+Proof. exact cder_roundtrip_in_stream. Qed.
+Print Assumptions C01_setdef_der_roundtrip_in_stream.
+
+Theorem C01_setdef_der_roundtrip : forall t v bs,
+  cwf_d t = true -> is_marker t = false -> cwt_d t v = true -> cder false t v = Some bs -> zlen bs <= rssize_max ->
+  cber_decode t bs = Some (strip_dflt t v, zlen bs).
+Proof. exact cder_roundtrip. Qed.
+Print Assumptions C01_setdef_der_roundtrip.
+
+(* unaligned PER and OER of a SEQUENCE with OPTIONAL / DEFAULT components: the value comes back with every
+   absent DEFAULT component FILLED IN (default_value_set) *)
+Theorem C01_setdef_uper_roundtrip_in_stream : forall std t v bits rest,
+  cwf_u t = true -> is_marker t = false -> cwt_u std t v = true -> cuper false std t v = Some bits ->
+  cuper_dec std t (bits ++ rest) = Some (fill_dflt t v, rest).
+Proof. exact cuper_roundtrip_in_stream. Qed.
+Print Assumptions C01_setdef_uper_roundtrip_in_stream.
+
+Theorem C01_setdef_oer_roundtrip_in_stream : forall t v bs rest,
+  cwf_o t = true -> is_marker t = false -> cwt_o t v = true -> coer false t v = Some bs ->
+  coer_dec t (bs ++ rest) = Some (fill_dflt t v, rest).
+Proof. exact coer_roundtrip_in_stream. Qed.
+Print Assumptions C01_setdef_oer_roundtrip_in_stream.
